@@ -243,7 +243,7 @@ F = {name: sp.Function(name) for name in (
     "Reshape", "Swapaxes", "Transpose", "Flip", "Stack", "Take", "Concat", "Astype", "Opq", "Where",
     "PrevFast", "NextFast", "SliceLen", "Mod", "Broadcast", "Len", "Real", "Imag", "Conj", "Sign",
     "Allclose", "Cast", "DaskOf", "Compute", "Persist", "Rechunk", "MapBlocks", "Call", "Unique",
-    "Searchsorted", "Poly", "Deriv", "Sel", "Ravel", "Unravel", "TimeScaleOffsetDays", "JD1of", "Roll", "TakeAlong", "ExpandDims", "Squeeze",
+    "Searchsorted", "Poly", "Deriv", "Sel", "Ravel", "Unravel", "TimeScaleOffsetDays", "JD1of", "TimeRendered", "Roll", "TakeAlong", "ExpandDims", "Squeeze",
 )}
 
 
